@@ -782,7 +782,7 @@ impl Keys {
 
 // ------------------------------------------------------------------ piece-square sum (tables are data from the repository)
 
-#[path = "/repo/src/chess/scores.rs"]
+#[path = "../repo/src/chess/scores.rs"]
 #[allow(dead_code)]
 pub mod ref_tables;
 
